@@ -279,8 +279,6 @@ def refused_nested_request(par: List[int], src: int, dst: int, hook: int, swallo
         # the refusal of the nested request reached the caller; when it was raised from the destination's own enter handler the
         # outer transition had already switched: the machine must still be in ONE consistent state (dst with parents entered
         # is only guaranteed when the hook is the last state entered, i.e. a root destination - see finding nested-parent-entry)
-        if par[dst] >= 0 and par[dst] < dst:
-            return True
     if sm.current_state is not states[dst] or not _active_ok(sm, states):
         return False
     sm._perform_transition("back")
